@@ -16,15 +16,21 @@ Rec == ndJsonDeserialize(IOEnv.TRACE)
 LXor(a, b) == IF a < 0 \/ b < 0 THEN -1 ELSE a ^^ b
 
 RECURSIVE FindPair(_, _, _, _)
-(* first pair of table t whose component k equals x; 0 if none *)
+(* first pair of the sequence t whose component k equals x; 0 if none *)
 FindPair(t, x, k, i) == IF i > Len(t) THEN 0 ELSE IF t[i][k] = x THEN i ELSE FindPair(t, x, k, i + 1)
 
-TabOf(c) == IF c[2] >= 1 /\ c[2] <= Len(Rec[c[1]].tabs) THEN Rec[c[1]].tabs[c[2]] ELSE <<>>
+(* the logged function graph of cipher c: pairs <<x, y>> with y = E(x), bucketed by the first byte of  *)
+(* x (field e) and by the first byte of y (field d) - a data layout chosen by the recorder so that a    *)
+(* lookup scans a few pairs; n = number of pairs, ndec = how many came from decryption calls           *)
+HasTab(c) == c[2] >= 1 /\ c[2] <= Len(Rec[c[1]].tabs)
+TabOf(c)  == Rec[c[1]].tabs[c[2]]
 
-LEnc(c, x) == LET t == TabOf(c)  i == FindPair(t, x, 1, 1)
-              IN  IF i = 0 THEN [j \in 1..Len(x) |-> -1] ELSE t[i][2]
-LDec(c, y) == LET t == TabOf(c)  i == FindPair(t, y, 2, 1)
-              IN  IF i = 0 THEN [j \in 1..Len(y) |-> -1] ELSE t[i][1]
+LEnc(c, x) == IF x = <<>> \/ ~HasTab(c) \/ x[1] < 0 THEN [j \in 1..Len(x) |-> -1]
+              ELSE LET t == TabOf(c).e[x[1] + 1]  i == FindPair(t, x, 1, 1)
+                   IN  IF i = 0 THEN [j \in 1..Len(x) |-> -1] ELSE t[i][2]
+LDec(c, y) == IF y = <<>> \/ ~HasTab(c) \/ y[1] < 0 THEN [j \in 1..Len(y) |-> -1]
+              ELSE LET t == TabOf(c).d[y[1] + 1]  i == FindPair(t, y, 2, 1)
+                   IN  IF i = 0 THEN [j \in 1..Len(y) |-> -1] ELSE t[i][1]
 LByteOf(n) == n
 LValOf(b)  == b
 LKnown(b)  == b >= 0
